@@ -65,6 +65,11 @@ func (tr *Translator) resolveType(txt string) types.Type {
 	}
 	tv, err := types.Eval(token.NewFileSet(), tr.tpkg, token.NoPos, txt)
 	if err != nil {
+		// qualified names of imported packages: *pkg.Type, []pkg.Type, pkg.Type
+		if t := tr.resolveQualified(txt); t != nil {
+			tr.typeCache[txt] = t
+			return t
+		}
 		evalFail("cannot resolve type %q: %v", txt, err)
 	}
 	tr.typeCache[txt] = tv.Type
@@ -784,4 +789,44 @@ type recInfo struct {
 	ret     string
 	retT    types.Type
 	pending bool
+}
+
+func (tr *Translator) resolveQualified(txt string) types.Type {
+	if strings.HasPrefix(txt, "*") {
+		if t := tr.resolveQualified(txt[1:]); t != nil {
+			return types.NewPointer(t)
+		}
+		return nil
+	}
+	if strings.HasPrefix(txt, "[]") {
+		if t := tr.resolveQualified(txt[2:]); t != nil {
+			return types.NewSlice(t)
+		}
+		return nil
+	}
+	i := strings.Index(txt, ".")
+	if i < 0 {
+		return nil
+	}
+	pkgName, typeName := txt[:i], txt[i+1:]
+	seen := map[*types.Package]bool{}
+	var find func(p *types.Package, depth int) types.Type
+	find = func(p *types.Package, depth int) types.Type {
+		if seen[p] || depth > 3 {
+			return nil
+		}
+		seen[p] = true
+		if p.Name() == pkgName {
+			if o := p.Scope().Lookup(typeName); o != nil {
+				return o.Type()
+			}
+		}
+		for _, imp := range p.Imports() {
+			if t := find(imp, depth+1); t != nil {
+				return t
+			}
+		}
+		return nil
+	}
+	return find(tr.tpkg, 0)
 }
